@@ -1,9 +1,13 @@
 """C20 — extension health hysteresis and notification rate limit.
 spec/Health.tla + spec/HealthRate.tla (full reachable graphs at the real constants), S->I transition cover on the
-real StatusState / ServiceState, I->S trace validation of seeded random histories against the property."""
+real StatusState / ServiceState, I->S trace validation of seeded random histories against the property.
+spec/HealthLoop.tla: the automaton inside the monitor loop (sequence numbers, <seq>.status files, enable handler);
+the real monitor_thread under a paused clock, its status files decided by spec/trace/HealthLoopTrace.tla."""
+import itertools
 import json
 import os
 import random
+import shutil
 import subprocess
 
 from vlib import build, util
@@ -15,7 +19,11 @@ ASSUME = [
     "(equal outputs on every edge of the complete graph => same automaton)",
     "the ghost run lengths are capped above every constant in the statement (GhostCap > MaxCount)",
     "the rate limiter is exercised with 2 keys x 2 values at the real MAX_STATE_COUNT; keys are independent map entries",
+    "monitor loop runs: tokio's paused clock (test-util) only replaces the 15 s sleep between two polls; an iteration of "
+    "monitor_thread has no suspension point, so the environment (status file of the agent, enable handler) acts between polls",
 ]
+
+NS_ENTER = os.path.join(util.VERIF, "harness", "sys", "ns_enter.sh")
 
 
 def harness(bindir, cmds, timeout=900):
@@ -69,6 +77,209 @@ def health_rows(inputs_rle, outs_rle):
         if outs[j][1] == 0:
             j += 1
     return rows
+
+
+def monitor_histories(rnd, thorough):
+    """histories for the real monitor loop: (seq0, [(sequence-number changes before the poll, status-file letter)])"""
+    H = []
+
+    def h(seq0, text):
+        # "s u +1u u +2+1m": letters, each optionally preceded by +<seq> changes
+        steps = []
+        for tok in text.split():
+            parts = tok.split("+")
+            steps.append((parts[1:-1] + ([parts[-1][:-1]] if len(parts) > 1 else []), tok[-1]))
+        H.append((seq0, steps))
+    # directed: a new goal state while the report stays the same (idle healthy agent, persistently failing agent)
+    h("0", "s u +1u u u")
+    h("0", "s +1u u +2u +3u u")
+    h("3", " ".join(["m"] * 22) + " +4m m m u u")                 # Error carried over a sequence-number change
+    h("0", "s u +1+0u u")                                         # two changes between two polls: the old number is back
+    h("0", "m +1m m +0m s +1u +0u")
+    h("0", "v v +1v v g +2g g +12s u +13u")
+    h("7", "s u " + " ".join(["m"] * 19) + " +8m m +9m u +10u")   # around the threshold
+    h("0", "s " + " ".join(["u"] * 130) + " +1u u")               # beyond 120 repetitions
+    # small scope, exhaustive: every history of 3 (thorough: 4) polls over these steps
+    steps = [(chg, a) for a in ("suvm" if thorough else "sum") for chg in ((), ("n",), ("n", "p"))]
+    for combo in itertools.product(steps, repeat=3):
+        H.append(("0", _concrete(combo)))
+    if thorough:
+        for combo in itertools.product([(chg, a) for a in "sum" for chg in ((), ("n",))], repeat=4):
+            H.append(("0", _concrete(combo)))
+    # seeded random: runs of one letter, sequence-number changes sprinkled in (also back to earlier numbers)
+    for _ in range(60 if not thorough else 600):
+        seq, seen, steps = rnd.choice(["0", "0", "5"]), [], []
+        seq0 = seq
+        for _ in range(rnd.randint(2, 7)):
+            a = rnd.choice("suuummvg")
+            for _ in range(rnd.choice([1, 1, 2, 3, 3, 19, 20, 21, rnd.randint(1, 30)])):
+                chg = []
+                r = rnd.random()
+                if r < 0.15:
+                    chg = [str(int(seq) + 1)]
+                elif r < 0.19 and seen:
+                    chg = [rnd.choice(seen)]
+                elif r < 0.23:
+                    chg = [str(int(seq) + 1), seq]
+                elif r < 0.25:
+                    chg = [seq]                                    # enable again with the same number: nothing happens
+                for x in chg:
+                    if x != seq:
+                        seen.append(seq)
+                        seq = x
+                steps.append((chg, a))
+        H.append((seq0, steps))
+    return H
+
+
+def _concrete(combo):
+    """'n' = the next number, 'p' = back to the one before"""
+    seq, out = 0, []
+    for chg, a in combo:
+        cs = []
+        for x in chg:
+            seq = seq + 1 if x == "n" else seq - 1
+            cs.append(str(seq))
+        out.append((cs, a))
+    return out
+
+
+def monitor_loop(c, bindir, rnd, thorough):
+    """5. the REAL monitor loop (hook H10, paused tokio clock) with sequence-number changes: what <seq>.status of the
+    current sequence number says after every poll, decided by TLC against HealthLoopTrace"""
+    # the design: the loop with the handler moving the sequence number; the memoised designs must be rejected
+    c.tlc("HealthLoop", "HealthLoop.cfg", workers=4, deadlock=True, required_actions=["Poll", "SeqChange", "AggChange"], timeout=600)
+    for cfg in ("HealthLoop_unkeyed.cfg", "HealthLoop_keyed.cfg"):
+        r = c.tlc("HealthLoop", cfg, workers=1, coverage=False, deadlock=True, expect_ok=False, timeout=600)
+        if r.invariant_violated not in ("CurrentSeqFileIsThisPollsReport", "NoStaleHandlerText"):
+            raise util.ToolError("%s: the memoised write must leave the handler's text in the current status file "
+                                 "(anti-vacuity); TLC said %s" % (cfg, r.invariant_violated or r.error_lines[:2] or "no violation"))
+        c.extra.setdefault("corner_configs", {})[cfg] = "violates %s at depth %d" % (r.invariant_violated, r.depth)
+    hist = monitor_histories(rnd, thorough)
+    S = os.path.join(util.RUNDIR, "c20_monitor")
+    shutil.rmtree(S, ignore_errors=True)
+    os.makedirs(os.path.join(S, "h"))
+    exe = os.path.join(S, "h", "verif-ext")
+    try:
+        os.link(os.path.join(bindir, "verif-ext"), exe)
+    except OSError:
+        shutil.copy2(os.path.join(bindir, "verif-ext"), exe)
+    inp = "".join(json.dumps({"kind": "monitor", "seq0": s0, "steps": [[list(ch), a] for ch, a in st]}) + "\n" for s0, st in hist)
+    t = util.Timer()
+    try:
+        p = subprocess.run([NS_ENTER, S, exe], input=inp, stdout=subprocess.PIPE, stderr=subprocess.PIPE, text=True,
+                           timeout=1800, env=dict(os.environ, VERIF_C17_LAYOUT="separate"))
+    except subprocess.TimeoutExpired:
+        raise util.ToolError("the monitor loop driver timed out (is the tokio clock paused?)")
+    finally:
+        shutil.rmtree(os.path.join(S, "ov"), ignore_errors=True)
+    if p.returncode != 0:
+        raise util.ToolError("verif-ext monitor driver failed rc=%s: %s" % (p.returncode, p.stderr[-2000:]))
+    outs = [json.loads(l) for l in p.stdout.splitlines() if l.strip()]
+    if len(outs) != len(hist):
+        raise util.ToolError("monitor driver answered %d of %d histories" % (len(outs), len(hist)))
+    util.log("monitor loop: %d histories, %d polls, %d virtual seconds in %ss" % (
+        len(hist), sum(o["polls"] for o in outs), sum(o["virtual_s"] for o in outs), t.s()))
+    rows, per_hist, seqchg, carried = [], [], 0, 0
+    for (seq0, steps), o in zip(hist, outs):
+        names = o["names"]
+        ev = o["events"]
+        if not ev or ev[0]["e"] != "reset" or not ev[0]["wrote"] or seq0 not in ev[0]["files"]:
+            raise util.ToolError("monitor: `enable %s` did not write its status file before the loop started" % seq0)
+        hdoc = ev[0]["files"][seq0]
+        if hdoc.get("status") != "transitioning" or hdoc.get("sub"):
+            raise util.ToolError("monitor: unexpected document of the enable handler: %r" % hdoc)
+
+        def digest(d):
+            if "raw" in d:
+                return {"by": "other", "st": "unreadable", "obs": "none"}
+            sub = d["sub"]
+            if not sub and d["message"] == hdoc["message"]:
+                return {"by": "handler", "st": str(d["status"]), "obs": "none"}
+            if [x[0] for x in sub] != names:
+                return {"by": "other", "st": str(d["status"]), "obs": "none"}
+            sts = {x[1] for x in sub}
+            obs = "?"
+            if sts == {"success"}:
+                try:
+                    obs = "t%d" % max(e["count"] for e in json.loads(sub[0][2]))
+                except (ValueError, KeyError, TypeError):
+                    obs = "?"
+            elif sts == {"transitioning"}:
+                m = sub[0][2]
+                obs = ("v" if "does not match proxy agent file version" in m else
+                       "m" if "No such file" in m or "os error 2" in m else "g")
+            return {"by": "loop", "st": str(d["status"]), "obs": obs}
+        cur, npoll, hrows, changed, last_obs = None, 0, [], False, None
+        for e in ev:
+            files = {k: digest(v) for k, v in e["files"].items()}
+            if e["e"] == "reset":
+                cur = e["cur"]
+                hrows.append({"e": "reset", "cur": cur, "files": files})
+            elif e["e"] == "seq":
+                if e["wrote"] != (e["to"] != cur):
+                    raise util.ToolError("monitor: enable %s under %s: wrote=%s" % (e["to"], cur, e["wrote"]))
+                if e["wrote"]:
+                    if files.get(e["to"], {}).get("by") != "handler":
+                        raise util.ToolError("monitor: after `enable %s` its status file is not the handler's: %r" % (e["to"], files.get(e["to"])))
+                    cur = e["to"]
+                    seqchg += 1
+                    changed = True
+                    hrows.append({"e": "seq", "to": cur, "files": files})
+            else:
+                if e["polls_seen"] != 1:
+                    raise util.ToolError("monitor: %d iterations of the loop between two driver steps (expected 1) in %r"
+                                         % (e["polls_seen"], (seq0, steps)))
+                npoll += 1
+                files.setdefault(cur, {"by": "absent", "st": "none", "obs": "none"})
+                hrows.append({"e": "poll", "ok": e["ok"], "obs": e["obs"], "files": files})
+                if changed and last_obs == e["obs"]:
+                    carried += 1           # a sequence-number change under an unchanged observation
+                changed, last_obs = False, e["obs"]
+        if npoll != len(steps) or o["polls"] != len(steps):
+            raise util.ToolError("monitor: the loop completed %d/%d polls of %d" % (npoll, o["polls"], len(steps)))
+        if o["cur"] != cur:
+            raise util.ToolError("monitor: current_seq_no.txt says %r, the driver %r" % (o["cur"], cur))
+        extra = [x for x in o["setup_calls"] if x not in ("purge", "restore")]
+        if extra:
+            raise util.ToolError("monitor: the loop ran the setup tool stand-in with %r (version stubs differ?)" % extra)
+        if o["virtual_s"] < 15 * (len(steps) - 1):
+            raise util.ToolError("monitor: %d polls in %d virtual seconds" % (len(steps), o["virtual_s"]))
+        per_hist.append(hrows)
+        rows += hrows
+        c.count("monitor:" + json.dumps([seq0, steps]))
+    if not seqchg or not carried:
+        raise util.ToolError("monitor: no sequence-number change under an unchanged observation was exercised")
+    c.extra["monitor_thread_histories"] = len(hist)
+    c.extra["monitor_thread_polls"] = sum(o["polls"] for o in outs)
+    c.extra["monitor_thread_seq_changes"] = seqchg
+    c.extra["monitor_thread_seq_changes_under_unchanged_observation"] = carried
+    c.sample({"monitor_history": [hist[0][0], hist[0][1]], "rows": per_hist[0][:4]})
+    ok, why, res = validate_trace(c, "HealthLoopTrace", "HealthLoopTrace.cfg", rows, "c20_loop_files", count=len(hist),
+                                  timeout=1800, heap="4g")
+    if not ok:
+        # name the offending history: the violating state's line counter points behind the offending row
+        import re
+        bad = None
+        ls = re.findall(r"^/\\ l = (\d+)", res.trace_text, re.M)
+        if ls:
+            at, acc = int(ls[-1]) - 2, 0
+            for k, hr in enumerate(per_hist):
+                if acc <= at < acc + len(hr):
+                    bad = k
+                    break
+                acc += len(hr)
+        if bad is not None:
+            ok1, why1, _ = validate_trace(c, "HealthLoopTrace", "HealthLoopTrace.cfg", per_hist[bad], "c20_loop_files_1")
+            if ok1:
+                bad = None
+        stale = "P_CurrentSeqFile" in why
+        c.violation("the monitor loop (service_main.rs monitor_thread, real loop under a paused clock): after a completed poll "
+                    "the status file of the current sequence number %s (%s)%s" % (
+                        "does not carry the report of that poll" if stale else "breaks the hysteresis of C20", why,
+                        "; history %r" % (hist[bad],) if bad is not None else ""),
+                    {"kind": "current-seq-status-file-stale" if stale else "current-seq-status-file-hysteresis", "broken": why},
+                    {"history": hist[bad] if bad is not None else None, "trace": (per_hist[bad] if bad is not None else rows)[:400]})
 
 
 def run(c):
@@ -199,13 +410,19 @@ def run(c):
             ch = rnd.choice("suuummvg")
             h += ch * rnd.choice([1, 1, 2, 3, 19, 20, 21, rnd.randint(1, 30)])
         hist.append(h)
-    inp = "\n".join(json.dumps({"kind": "report", "polls": h}) for h in hist) + "\n"
-    p = subprocess.run(["unshare", "-m", "sh", "-c", "mount -t tmpfs tmpfs /var/log && VERIF_VARLOG_IS_PRIVATE=1 exec " +
-                        os.path.join(bindir, "verif-ext")], input=inp, stdout=subprocess.PIPE, stderr=subprocess.PIPE,
-                       text=True, timeout=900)
-    if p.returncode != 0:
-        raise util.ToolError("verif-ext report driver failed rc=%s: %s" % (p.returncode, p.stderr[-2000:]))
-    outs = [json.loads(l) for l in p.stdout.splitlines() if l.strip()]
+    outs = []
+    # 20 histories per process: the process-wide event queue (1000 entries, drained by nothing here) must never fill up,
+    # a notification that cannot be queued is logged without its text
+    for b in range(0, len(hist), 20):
+        inp = "\n".join(json.dumps({"kind": "report", "polls": h}) for h in hist[b:b + 20]) + "\n"
+        p = subprocess.run(["unshare", "-m", "sh", "-c", "mount -t tmpfs tmpfs /var/log && VERIF_VARLOG_IS_PRIVATE=1 exec " +
+                            os.path.join(bindir, "verif-ext")], input=inp, stdout=subprocess.PIPE, stderr=subprocess.PIPE,
+                           text=True, timeout=900)
+        if p.returncode != 0:
+            raise util.ToolError("verif-ext report driver failed rc=%s: %s" % (p.returncode, p.stderr[-2000:]))
+        outs += [json.loads(l) for l in p.stdout.splitlines() if l.strip()]
+    if any(o.get("queue_full") for o in outs):
+        raise util.ToolError("report driver: the event queue of the harness process filled up (notifications not readable from the log)")
     if len(outs) != len(hist):
         raise util.ToolError("report driver answered %d of %d histories" % (len(outs), len(hist)))
     rows = []
@@ -242,9 +459,12 @@ def run(c):
         c.violation("the monitor loop's report breaks C20 (%s): status file histories through "
                     "report_proxy_agent_aggregate_status" % why, {"machine": "monitor-loop", "broken": why},
                     {"histories": hist, "trace": rows[:3000]})
+    monitor_loop(c, bindir, rnd, thorough)
     c.rule = ("S->I: every edge of the complete reachable graphs of Health.tla / HealthRate.tla (real constants) is "
               "replayed on the real object, output compared after every step; I->S: seeded random run-length "
-              "histories validated by TLC against the property-level trace specs; distinct = distinct graph edges exercised + distinct random histories")
+              "histories validated by TLC against the property-level trace specs; the real monitor loop (paused clock) with "
+              "sequence-number changes: every <seq>.status read back after every poll, decided by TLC against HealthLoopTrace; "
+              "distinct = distinct graph edges exercised + distinct random histories + distinct loop histories")
 
 
 def replay(c, path):
